@@ -483,6 +483,35 @@ func runC04(c *Ctx) {
 		R.Ob(c.siteKey(site, "dataResult is a fresh buffered channel"), c.P.InstrPos(site), describe(v) == "makechan(1)", "dataResult assigned "+describe(v))
 	}
 
+	R.Rule("R-write-deadline-owner", "who-may-call + E3 guard facts", "the server arms a write deadline on the connection only where WriteTimeout is set (writeResponse re-arms it for every reply); nothing arms both deadlines at once: a read deadline must never expire a reply", 3)
+	nDl := 0
+	for _, f := range c.P.AllFuncs() {
+		if !inSmtp(f) || !(strings.HasPrefix(funcName(f), "(*Conn).") || strings.HasPrefix(funcName(f), "(*Server).")) {
+			continue
+		}
+		ff := c.F.Analyze(f)
+		allInstrs(f, func(in ssa.Instruction) {
+			for _, l := range c.stdLabels(in) {
+				switch l {
+				case "icall:iface:(net.Conn).SetDeadline":
+					nDl++
+					R.Ob(c.siteKey(in, "no combined deadline on the server side"), c.P.InstrPos(in), false, "SetDeadline also arms the write deadline: with WriteTimeout unset no reply re-arms it, so a reply written later than the read timeout (slow backend, idle client) is silently lost and so is every reply after it")
+				case "icall:iface:(net.Conn).SetWriteDeadline":
+					nDl++
+					ok := false
+					for a := range ff.At(in) {
+						if strings.HasSuffix(a, "Server.WriteTimeout != 0") || strings.Contains(a, "WriteTimeout != 0") {
+							ok = true
+						}
+					}
+					R.Ob(c.siteKey(in, "write deadline only where WriteTimeout is set"), c.P.InstrPos(in), ok, fmt.Sprintf("write deadline armed without a WriteTimeout != 0 guard (facts: %v)", ff.At(in).list()))
+				case "icall:iface:(net.Conn).SetReadDeadline":
+					nDl++
+				}
+			}
+		})
+	}
+	R.Ob("deadline calls/found", "-", nDl >= 3, fmt.Sprintf("%d deadline calls on the server side", nDl))
 	R.Rule("R-sasl-decode", "E4", "a zero-length SASL response is handed to the mechanism as an empty (non-nil) slice: otherwise a spurious 334 is sent and the following command is swallowed as SASL data", 2)
 	ruleSASLDecode(c)
 	R.Rule("R-status-fill-shape", "E1", "in LMTP every accepted recipient occurrence gets a reply: fillRemaining loops a non-blocking send over every recipient channel until it is full", 2)
